@@ -52,8 +52,11 @@ def crc(args) -> int:
 class Injected(Exception):
     """The exception object a failing generated node raises (pre-allocated per node, identity is checked)."""
 
-    def __init__(self, fid, at=None):
-        super().__init__(f"injected failure in {fid}" + (f" at {at!r}" if at is not None else ""))
+    def __init__(self, fid, at=None, empty=False):
+        if empty:
+            super().__init__()  # message-less exception: str(e) == ""
+        else:
+            super().__init__(f"injected failure in {fid}" + (f" at {at!r}" if at is not None else ""))
         self.fid = fid
         self.at = at  # argument tuple, when the failure is allocated per invocation (map items)
 
@@ -126,7 +129,7 @@ def make_func(ctx: Ctx, spec: dict, flavour: str):
     is_async = flavour == "async" and kind in ("func",)
     fail = spec.get("fail")
     table = spec.get("table")
-    injected = ctx.injected.setdefault(fid, Injected(fid))
+    injected = ctx.injected.setdefault(fid, Injected(fid, empty=bool(spec.get("fail_empty"))))
 
     expr = spec.get("expr")
     code = compile(expr, f"<expr {fid}>", "eval") if expr is not None else None
